@@ -24,6 +24,7 @@ RULE = ("cases = (script as token lists, layout): generated CREATE TABLE (core +
         "break before a statement-level word (the property's proviso); plus regression-corpus scripts under text-level freedoms "
         "(CRLF, trailing blanks, blank lines). A TAB or line break directly before a quoted literal is generated separately "
         "(known finding). Non-trivial = the variant text differs from the canonical text; distinct = distinct variant text.")
+RULE += (" Added after seeded defects: tables may also carry AUTO_INCREMENT / AUTOINCREMENT, COLLATE, COMMENT and CHECK column options, sort directions and [NON]CLUSTERED on key clauses, parenthesised and decimal defaults, tricky vocabulary names.")
 ASSUMPTIONS = ["the canonical rendering's result is the reference (its content is decided by C01/C02/C04/C17)",
                "values (CASCADE, type names, TRUE) and identifiers are never re-cased by the renderer",
                "layout of unsupported statements is not varied"]
